@@ -51,30 +51,32 @@ abbrev cancelledSlot : Result := newErrorResult (.fw .batchCancelled)
     `cancelled` of the current state. -/
 inductive Micro (c : Cfg) (s : BState) (i : Nat) : Pc → Bool → List Obs → Pc → Prop
   | retOk (k : Nat) (x : Val) : (c.exec i k).res = .ok x →
-      Micro c s i (.inExec k) (c.exec i k).cancels [.done i k] (.store (slotOfVal (execRet c.execS x)))
+      Micro c s i (.inExec k) (c.exec i k).cancels [.done i k] (.store (slotOfVal (execRet c.execS x)) false)
   | retErr (k : Nat) (e : Nat) : (c.exec i k).res = .error e →
       Micro c s i (.inExec k) (c.exec i k).cancels [.done i k] (.loopTop (k + 1) (some e))
   | stopPass : ¬ (s.shouldStop = true ∧ c.stop = true) → Micro c s i .stopCheck false [] .ctxCheck
   | ctxPass : s.cancelled = false → Micro c s i .ctxCheck false [] (.loopTop 0 none)
   | loopCancelled (k : Nat) (last : Option Nat) : k < c.budget → s.cancelled = true →
-      Micro c s i (.loopTop k last) false [] (.store (newErrorResult (.ctx c.kind)))
+      Micro c s i (.loopTop k last) false [] (.store (newErrorResult (.ctx c.kind)) true)
   | loopAbsent (k : Nat) (last : Option Nat) : k < c.budget → s.cancelled = false → c.execS = .absent →
-      Micro c s i (.loopTop k last) false [] (.store (slotOfVal Val.nil))
+      Micro c s i (.loopTop k last) false [] (.store (slotOfVal Val.nil) false)
   | loopStart (k : Nat) (last : Option Nat) : k < c.budget → s.cancelled = false → c.execS ≠ .absent →
       Micro c s i (.loopTop k last) false [.start i k] (.inExec k)
-  | exhaustedNone (k : Nat) : ¬ k < c.budget → Micro c s i (.loopTop k none) false [] (.store (slotOfVal Val.nil))
+  | exhaustedNone (k : Nat) : ¬ k < c.budget → Micro c s i (.loopTop k none) false [] (.store (slotOfVal Val.nil) false)
   | fbOk (k e : Nat) (x : Val) : ¬ k < c.budget → c.fb = .custom → (c.fbOut i).res = .ok x →
-      Micro c s i (.loopTop k (some e)) (c.fbOut i).cancels [.fb i] (.store (slotOfVal x))
+      Micro c s i (.loopTop k (some e)) (c.fbOut i).cancels [.fb i] (.store (slotOfVal x) false)
   | fbErr (k e e' : Nat) : ¬ k < c.budget → c.fb = .custom → (c.fbOut i).res = .error e' →
-      Micro c s i (.loopTop k (some e)) (c.fbOut i).cancels [.fb i] (.store (newErrorResult (.user e')))
+      Micro c s i (.loopTop k (some e)) (c.fbOut i).cancels [.fb i] (.store (newErrorResult (.user e')) true)
   | noFb (k e : Nat) : ¬ k < c.budget → c.fb ≠ .custom →
-      Micro c s i (.loopTop k (some e)) false [] (.store (newErrorResult (.user e)))
+      Micro c s i (.loopTop k (some e)) false [] (.store (newErrorResult (.user e)) true)
 
-/-- The last step of a task: it writes `r` into its slot (raising `shouldStop` iff `b`) and returns. -/
+/-- The last step of a task: it writes `r` into its slot (raising `shouldStop` iff `b`) and returns.
+    A task at `.store r failed` raises the flag iff it FAILED (`runExecWithRetries` returned an error) in stop
+    mode — not merely because `r` is an error Result (batch.go: `if err != nil { … shouldStop = true }`). -/
 inductive Fin (c : Cfg) (s : BState) : Pc → Result → Bool → Prop
   | stopHit : s.shouldStop = true → c.stop = true → Fin c s .stopCheck stoppedSlot false
   | ctxHit : s.cancelled = true → Fin c s .ctxCheck cancelledSlot false
-  | store (r : Result) : Fin c s (.store r) r (r.isError && c.stop)
+  | store (r : Result) (failed : Bool) : Fin c s (.store r failed) r (failed && c.stop)
 
 inductive Trans (c : Cfg) (s : BState) : Label → BState → Prop
   | submit : s.next < c.n → s.queue.length < c.cap →
@@ -190,9 +192,9 @@ theorem trans_of_apply {c : Cfg} {s s' : BState} {l : Label} (h : apply c s l = 
             simp only [Option.some.injEq] at h; subst h
             have := Trans.advance (c := c) i _ _ _ _ (.step i) hpc (.noFb k e hk (by intro hh; exact hfb hh)) (.inr rfl)
             rwa [bstate_eta] at this
-    · rename_i r hpc
+    · rename_i r fl hpc
       simp only [Option.some.injEq] at h; subst h
-      exact .finish i _ r _ hpc (.store r)
+      exact .finish i _ r _ hpc (.store r fl)
     · simp at h
 
 /-! ### bookkeeping lemmas -/
@@ -537,6 +539,84 @@ inductive Origin (c : Cfg) (cz : Bool) (h : List Obs) (i : Nat) : Result → Pro
       AllErr c i c.budget → c.fb ≠ .custom → (c.exec i (c.budget - 1)).res = .error e → itemFbs h i = 0 →
       Origin c cz h i (newErrorResult (.user e))
 
+/-- **How a retry loop ended.** `LoopEnd c cz h i r failed`: task `i` left `runExecWithRetries` with the result `r`
+    to store, and `failed` says whether `runExecWithRetries` returned an ERROR (`err != nil`: the loop was cut by
+    cancellation, or every attempt failed and there was no successful fallback) or a VALUE (`failed = false`: an
+    attempt's or the fallback's value — which may itself be an error *Result* — or nil when there is nothing to
+    call). Same cases, same evidence as `Origin`; only a failed loop raises `shouldStop`. -/
+inductive LoopEnd (c : Cfg) (cz : Bool) (h : List Obs) (i : Nat) : Result → Bool → Prop
+  | ctxCut (k : Nat) : cz = true → k < c.budget → itemStarts h i = List.range k → itemDones h i = List.range k →
+      AllErr c i k → itemFbs h i = 0 → LoopEnd c cz h i (newErrorResult (.ctx c.kind)) true
+  | noExec : (c.execS = .absent ∨ c.budget = 0) → Fresh h i → LoopEnd c cz h i (slotOfVal Val.nil) false
+  | ok (k : Nat) (x : Val) : k < c.budget → itemStarts h i = List.range (k + 1) → itemDones h i = List.range (k + 1) →
+      AllErr c i k → (c.exec i k).res = .ok x → itemFbs h i = 0 → LoopEnd c cz h i (slotOfVal (execRet c.execS x)) false
+  | fbOk (x : Val) : 0 < c.budget → itemStarts h i = List.range c.budget → itemDones h i = List.range c.budget →
+      AllErr c i c.budget → c.fb = .custom → (c.fbOut i).res = .ok x → itemFbs h i = 1 → LoopEnd c cz h i (slotOfVal x) false
+  | fbErr (e' : Nat) : 0 < c.budget → itemStarts h i = List.range c.budget → itemDones h i = List.range c.budget →
+      AllErr c i c.budget → c.fb = .custom → (c.fbOut i).res = .error e' → itemFbs h i = 1 →
+      LoopEnd c cz h i (newErrorResult (.user e')) true
+  | lastError (e : Nat) : 0 < c.budget → itemStarts h i = List.range c.budget → itemDones h i = List.range c.budget →
+      AllErr c i c.budget → c.fb ≠ .custom → (c.exec i (c.budget - 1)).res = .error e → itemFbs h i = 0 →
+      LoopEnd c cz h i (newErrorResult (.user e)) true
+
+/-- the result a finished retry loop is about to store is justified by the item's own script and events -/
+theorem LoopEnd.origin {c : Cfg} {cz : Bool} {h : List Obs} {i : Nat} {r : Result} {f : Bool}
+    (ho : LoopEnd c cz h i r f) : Origin c cz h i r := by
+  cases ho with
+  | ctxCut k z a b d e g => exact .ctxCut k z a b d e g
+  | noExec a b => exact .noExec a b
+  | ok k x a b d e g j => exact .ok k x a b d e g j
+  | fbOk x a b d e g j k => exact .fbOk x a b d e g j k
+  | fbErr x a b d e g j k => exact .fbErr x a b d e g j k
+  | lastError x a b d e g j k => exact .lastError x a b d e g j k
+
+/-- a retry loop that FAILED stores an error Result (never a success-looking one) -/
+theorem LoopEnd.failed_isError {c : Cfg} {cz : Bool} {h : List Obs} {i : Nat} {r : Result}
+    (ho : LoopEnd c cz h i r true) : r.isError = true := by
+  cases ho <;> rfl
+
+/-- **What `failed` means in terms of the item's own script.** The loop failed iff it was cut by cancellation
+    before an attempt `k < budget`, or all `budget ≥ 1` attempts failed and the node has no custom fallback or the
+    fallback failed too. -/
+theorem LoopEnd.failed_iff {c : Cfg} {cz : Bool} {h : List Obs} {i : Nat} {r : Result} {f : Bool}
+    (ho : LoopEnd c cz h i r f) :
+    f = true ↔
+      ((cz = true ∧ ∃ k, k < c.budget ∧ itemDones h i = List.range k ∧ AllErr c i k ∧ itemFbs h i = 0 ∧
+          r = newErrorResult (.ctx c.kind)) ∨
+       (0 < c.budget ∧ itemDones h i = List.range c.budget ∧ AllErr c i c.budget ∧
+          ((c.fb = .custom ∧ ∃ e', (c.fbOut i).res = .error e' ∧ r = newErrorResult (.user e')) ∨
+           (c.fb ≠ .custom ∧ ∃ e, (c.exec i (c.budget - 1)).res = .error e ∧ r = newErrorResult (.user e))))) := by
+  cases ho with
+  | ctxCut k z a b d e g => exact ⟨fun _ => .inl ⟨z, k, a, d, e, g, rfl⟩, fun _ => rfl⟩
+  | noExec a b =>
+    refine ⟨fun hf => absurd hf (by simp), ?_⟩
+    rintro (⟨_, k, hk, _, _, _, hr⟩ | ⟨hpos, hd, ha, _⟩)
+    · -- the evidence could be that of a cut loop; the result decides: `slotOfVal nil` is not an error
+      simp [slotOfVal, newErrorResult, toResult, Val.asResult?, newResult, Val.nil] at hr
+    · rcases a with a | a
+      · rw [b.2.1] at hd
+        have : c.budget = 0 := by
+          cases hb : c.budget with
+          | zero => rfl
+          | succ n => rw [hb] at hd; simp [List.range_succ] at hd
+        omega
+      · omega
+  | ok k x a b d e g j =>
+    refine ⟨fun hf => absurd hf (by simp), ?_⟩
+    rintro (⟨_, k', hk', hd, ha', _, _⟩ | ⟨hpos, hd, ha, _⟩)
+    · rw [d] at hd
+      have := congrArg List.length hd; simp at this
+      subst this; obtain ⟨e', he'⟩ := ha' k (by omega); rw [g] at he'; cases he'
+    · obtain ⟨e', he'⟩ := ha k a; rw [g] at he'; cases he'
+  | fbOk x a b d e g j k =>
+    refine ⟨fun hf => absurd hf (by simp), ?_⟩
+    rintro (⟨_, k', hk', _, _, hf, _⟩ | ⟨hpos, hd, ha, (⟨_, e', he', _⟩ | ⟨hn, _⟩)⟩)
+    · omega
+    · rw [j] at he'; cases he'
+    · exact absurd g hn
+  | fbErr x a b d e g j k => exact ⟨fun _ => .inr ⟨a, d, e, .inl ⟨g, x, j, rfl⟩⟩, fun _ => rfl⟩
+  | lastError x a b d e g j k => exact ⟨fun _ => .inr ⟨a, d, e, .inr ⟨g, x, j, rfl⟩⟩, fun _ => rfl⟩
+
 /-- what the log must say about task `i` at program counter `pc` -/
 def PcOk (c : Cfg) (cz : Bool) (h : List Obs) (i : Nat) : Pc → Prop
   | .stopCheck => Fresh h i
@@ -547,7 +627,7 @@ def PcOk (c : Cfg) (cz : Bool) (h : List Obs) (i : Nat) : Pc → Prop
   | .inExec k =>
       k < c.budget ∧ itemStarts h i = List.range (k + 1) ∧ itemDones h i = List.range k ∧ AllErr c i k ∧
       itemFbs h i = 0 ∧ c.execS ≠ .absent
-  | .store r => Origin c cz h i r
+  | .store r failed => LoopEnd c cz h i r failed
 
 theorem Fresh.congr {h h' : List Obs} {i : Nat} (e1 : itemStarts h' i = itemStarts h i) (e2 : itemDones h' i = itemDones h i)
     (e3 : itemFbs h' i = itemFbs h i) (hf : Fresh h i) : Fresh h' i := by
@@ -566,6 +646,18 @@ theorem Origin.congr {c : Cfg} {cz cz' : Bool} {h h' : List Obs} {i : Nat} {r : 
   | fbErr x a b d e f g k => exact .fbErr x a (e1 ▸ b) (e2 ▸ d) e f g (e3 ▸ k)
   | lastError x a b d e f g k => exact .lastError x a (e1 ▸ b) (e2 ▸ d) e f g (e3 ▸ k)
 
+theorem LoopEnd.congr {c : Cfg} {cz cz' : Bool} {h h' : List Obs} {i : Nat} {r : Result} {fl : Bool} (hz : cz = true → cz' = true)
+    (e1 : itemStarts h' i = itemStarts h i)
+    (e2 : itemDones h' i = itemDones h i) (e3 : itemFbs h' i = itemFbs h i) (ho : LoopEnd c cz h i r fl) :
+    LoopEnd c cz' h' i r fl := by
+  cases ho with
+  | ctxCut k z a b d e f => exact .ctxCut k (hz z) a (e1 ▸ b) (e2 ▸ d) e (e3 ▸ f)
+  | noExec a b => exact .noExec a (b.congr e1 e2 e3)
+  | ok k x a b d e f g => exact .ok k x a (e1 ▸ b) (e2 ▸ d) e f (e3 ▸ g)
+  | fbOk x a b d e f g k => exact .fbOk x a (e1 ▸ b) (e2 ▸ d) e f g (e3 ▸ k)
+  | fbErr x a b d e f g k => exact .fbErr x a (e1 ▸ b) (e2 ▸ d) e f g (e3 ▸ k)
+  | lastError x a b d e f g k => exact .lastError x a (e1 ▸ b) (e2 ▸ d) e f g (e3 ▸ k)
+
 theorem PcOk.congr {c : Cfg} {cz cz' : Bool} {h h' : List Obs} {i : Nat} {pc : Pc} (hz : cz = true → cz' = true)
     (e1 : itemStarts h' i = itemStarts h i)
     (e2 : itemDones h' i = itemDones h i) (e3 : itemFbs h' i = itemFbs h i) (ho : PcOk c cz h i pc) : PcOk c cz' h' i pc := by
@@ -574,7 +666,7 @@ theorem PcOk.congr {c : Cfg} {cz cz' : Bool} {h h' : List Obs} {i : Nat} {pc : P
   | ctxCheck => exact Fresh.congr e1 e2 e3 ho
   | loopTop k last => unfold PcOk at *; rw [e1, e2, e3]; exact ho
   | inExec k => unfold PcOk at *; rw [e1, e2, e3]; exact ho
-  | store r => exact Origin.congr hz e1 e2 e3 ho
+  | store r fl => exact LoopEnd.congr hz e1 e2 e3 ho
 
 @[simp] theorem itemStarts_nil (i : Nat) : itemStarts [] i = [] := rfl
 @[simp] theorem itemDones_nil (i : Nat) : itemDones [] i = [] := rfl
@@ -785,7 +877,7 @@ theorem logInv_trans {c : Cfg} {s s' : BState} {l : Label} (hI : Inv c s) (h : L
         cases hf with
         | stopHit a b => exact .stopped b hp
         | ctxHit a => exact .cancelledBefore a hp
-        | store r => exact hp
+        | store r fl => exact LoopEnd.origin hp
       · exact h2 j r' hr
     · intro j hj hs
       rw [hh]
@@ -882,18 +974,33 @@ theorem stopCheck_blocked {c : Cfg} {s s' : BState} {i : Nat} (hstop : c.stop = 
   refine ⟨rfl, ?_, rfl⟩
   rw [ids_finish]; simp
 
-/-- the step that stores a failing result in stop mode raises `shouldStop` and frees its worker: at most
-    `w - 1` other tasks are in flight -/
+/-- the step that stores the result of a task that FAILED (`runExecWithRetries` returned an error: pc
+    `.store r true`) in stop mode raises `shouldStop` and frees its worker: at most `w - 1` other tasks are in flight -/
 theorem failing_store {c : Cfg} {s s' : BState} {i : Nat} {r : Result} (hr : Reachable c s) (hstop : c.stop = true)
-    (hpc : pcOf s i = some (.store r)) (he : r.isError = true) (h : apply c s (.step i) = some s') :
+    (hpc : pcOf s i = some (.store r true)) (h : apply c s (.step i) = some s') :
     s'.shouldStop = true ∧ s'.running.length + 1 ≤ c.w ∧ s'.slots = setSlot s.slots i r := by
   have hI' := inv_trans (inv_reachable hr) (trans_of_apply h)
   simp only [apply, hpc, Option.some.injEq] at h
   subst h
-  refine ⟨by simp [he, hstop], ?_, rfl⟩
+  refine ⟨by simp [hstop], ?_, rfl⟩
   have := hI'.workers
   simp only [finish_idle] at this
   omega
+
+/-- … whereas a task whose processing returned a VALUE (pc `.store r false`) — even an error *Result* handed back
+    with a nil error — fills its slot and leaves the stop flag exactly as it was, in either mode -/
+theorem value_store {c : Cfg} {s s' : BState} {i : Nat} {r : Result}
+    (hpc : pcOf s i = some (.store r false)) (h : apply c s (.step i) = some s') :
+    s'.shouldStop = s.shouldStop ∧ s'.slots = setSlot s.slots i r ∧ s'.log = s.log := by
+  simp only [apply, hpc, Option.some.injEq] at h
+  subst h
+  exact ⟨by simp, rfl, rfl⟩
+
+/-- a task of a reachable state that is about to store with `failed = true` stores an error Result, and `failed`
+    is exactly "the item's own retry loop ended in an error" (`LoopEnd`) -/
+theorem store_pc_loopEnd {c : Cfg} {s : BState} {i : Nat} {r : Result} {f : Bool} (hL : LogInv c s)
+    (hpc : pcOf s i = some (.store r f)) : LoopEnd c s.cancelled (hist s) i r f :=
+  hL.running _ _ (pcOf_mem hpc)
 
 theorem length_le_of_nodup_subset : ∀ (L M : List Nat), L.Nodup → (∀ x ∈ L, x ∈ M) → L.length ≤ M.length
   | [], _, _, _ => by simp
@@ -945,7 +1052,7 @@ theorem ctxCheck_cancelled {c : Cfg} {s s' : BState} {i : Nat} (hs : s.cancelled
 /-- … and a task at the top of its retry loop gives up with the context's error instead of starting an attempt -/
 theorem loopTop_cancelled {c : Cfg} {s s' : BState} {i k : Nat} {last : Option Nat} (hs : s.cancelled = true)
     (hk : k < c.budget) (hpc : pcOf s i = some (.loopTop k last)) (h : apply c s (.step i) = some s') :
-    s' = setPc s i (.store (newErrorResult (.ctx c.kind))) := by
+    s' = setPc s i (.store (newErrorResult (.ctx c.kind)) true) := by
   simp only [apply, hpc, hs, hk, if_true, Option.some.injEq] at h
   exact h.symm
 
@@ -957,7 +1064,7 @@ def rank (c : Cfg) : Pc → Nat
   | .ctxCheck => 2 * c.budget + 3
   | .loopTop k _ => 2 * (c.budget - k) + 2
   | .inExec k => 2 * (c.budget - k) + 1
-  | .store _ => 1
+  | .store _ _ => 1
 
 def runSum (c : Cfg) (l : List (Nat × Pc)) : Nat := (l.map fun p => rank c p.2).sum
 
@@ -1113,7 +1220,7 @@ theorem progress {c : Cfg} {s : BState} (hr : Reachable c s) (hw : 0 < c.w) (hca
     | ctxCheck =>
       refine ⟨.step i, by simp, ?_⟩
       simp only [apply, hpc]; split <;> simp
-    | store r => exact ⟨.step i, by simp, by simp [apply, hpc]⟩
+    | store r fl => exact ⟨.step i, by simp, by simp [apply, hpc]⟩
     | loopTop k last =>
       refine ⟨.step i, by simp, ?_⟩
       simp only [apply, hpc]
